@@ -144,6 +144,28 @@ class ClassInfo:
         return f"<Class {self.fq}>"
 
 
+class _CanonCompare(ast.NodeTransformer):
+    """orientation of comparisons with a literal: the literal goes to the right
+    (`0 > crit` is analysed as `crit < 0`, `'subdiff' == self.ws_strategy` as
+    `self.ws_strategy == 'subdiff'`), so that no rule depends on how a test is spelled"""
+    FLIP = {ast.Lt: ast.Gt, ast.Gt: ast.Lt, ast.LtE: ast.GtE, ast.GtE: ast.LtE, ast.Eq: ast.Eq,
+            ast.NotEq: ast.NotEq}
+
+    @staticmethod
+    def _lit(n):
+        if isinstance(n, ast.UnaryOp) and isinstance(n.op, (ast.USub, ast.UAdd)):
+            n = n.operand
+        return isinstance(n, ast.Constant)
+
+    def visit_Compare(self, node):
+        self.generic_visit(node)
+        if len(node.ops) == 1 and type(node.ops[0]) in self.FLIP and self._lit(node.left) \
+                and not self._lit(node.comparators[0]):
+            new = ast.Compare(node.comparators[0], [self.FLIP[type(node.ops[0])]()], [node.left])
+            return ast.copy_location(new, node)
+        return node
+
+
 class Module:
     def __init__(self, name, path, relpath):
         self.name = name
@@ -157,6 +179,7 @@ class Module:
             self.tree = ast.parse(self.src, filename=path)
         except SyntaxError as e:
             raise AnalysisError(f"cannot parse {relpath}: {e}")
+        _CanonCompare().visit(self.tree)
         self.imports = {}     # local name -> (module name, attr or None)
         self.functions = {}
         self.classes = {}
